@@ -216,6 +216,9 @@ def run(ctx, chk, tier):
         r0, r1 = rows.get(0), rows.get(1)
         dec_ok = (isinstance(r0, App) and r0.fn == "mod" and r0.args[1] == Const(2) and isinstance(r1, App) and r1.fn == "floordiv" and r1.args[1] == Const(2)
                   and r0.args[0] == r1.args[0])
+        if not (shape_ok and dec_ok) and any(isinstance(a_, App) and a_.fn.startswith("ext:") for a_ in atoms_of(v)):
+            chk.unknown("R20.5", "decoding (%s) goes through an unmodelled library call: %s" % (tag, show(v, 160)))
+            continue
         if not (shape_ok and dec_ok):
             chk.violation("R20.5", q, tag + ":decoding", show(v, 200), "data[0] = joint % 2, data[1] = joint // 2 in a (2, n) buffer", ctx.where(q))
             continue
